@@ -79,6 +79,9 @@ fn gen(t: &mut Tape, tier: Tier) -> Scenario {
         }
         match t.below(3) {
             0 => {}
+            1 if t.below(4) == 0 => {
+                sc.set_i("init_size", [u64::MAX, 0, 1 << 32][t.below(3) as usize]);
+            }
             _ => {
                 sc.set_i("init_size", sizes[0]);
             }
@@ -126,9 +129,12 @@ fn gen(t: &mut Tape, tier: Tier) -> Scenario {
             ops.extend_from_slice(&[OP_RESET_SOME_NONE, 0]);
         } else {
             let s = sizes[t.below(nstreams as u64) as usize];
-            let s = match t.below(6) {
+            let s = match t.below(8) {
                 0 => s + 1,
                 1 => s.saturating_sub(1),
+                // values at the edges of the type (all-ones means "unknown" in a
+                // .lzma header, but is an ordinary number here)
+                2 => [u64::MAX, u64::MAX - 1, 0, 1 << 32, 1 << 63][t.below(5) as usize],
                 _ => s,
             };
             ops.extend_from_slice(&[OP_RESET_SOME_SIZE, s]);
@@ -314,7 +320,7 @@ fn exec(sc: &Scenario, ctx: &mut Ctx) -> Vec<Violation> {
 pub static C14: SimpleProp = SimpleProp {
     id: "C14",
     level: "exploration",
-    rule: "one evaluation = one history of 4-12 operations (or, 1 run in 24, of A, k x (reset, B), reset, A with k up to 1025 - 65537 in the thorough tier - reuse cycles) {decompress stream i (valid, bit-flipped, truncated, spliced, or cut short by an injected source error after k one-byte refills), reset(None), reset(Some(None)), reset(Some(Some(n)))} on a single raw::LzmaDecoder (any lc/lp/pb, dictionary 1..65536) or raw::Lzma2Decoder (streams with changing properties); after every reset the next decompress is compared (verdict, bytes, consumed count) with a freshly constructed decoder with the same parameters and the size last specified; non-trivial = at least one such comparison; distinct by scenario hash",
+    rule: "one evaluation = one history of 4-12 operations (or, 1 run in 24, of A, k x (reset, B), reset, A with k up to 1025 - 65537 in the thorough tier - reuse cycles) {decompress stream i (valid, bit-flipped, truncated, spliced, or cut short by an injected source error after k one-byte refills), reset(None), reset(Some(None)), reset(Some(Some(n))) with n = a stream's size, ±1, or 0 / 2^32 / 2^63 / 2^64-1} on a single raw::LzmaDecoder (any lc/lp/pb, dictionary 1..65536) or raw::Lzma2Decoder (streams with changing properties); after every reset the next decompress is compared (verdict, bytes, consumed count) with a freshly constructed decoder with the same parameters and the size last specified; non-trivial = at least one such comparison; distinct by scenario hash",
     runs_quick: 60_000,
     runs_thorough: 6_000_000,
     both_profiles: false,
